@@ -367,6 +367,16 @@ def function_names():
         for cls in (_ep.TransactionContext, _ep.ExpressionContext):
             names |= {n[4:] for n in dir(cls) if n.startswith('_fn_')}
             names |= set(getattr(cls, '_FUNCTION_NAMES', ()))
+        # every attribute / method / instance-variable name of every class the evaluator is built from (a name lookup that falls through to
+        # getattr on one of its own objects would expose them)
+        for obj in vars(_ep).values():
+            if isinstance(obj, type) and obj.__module__ == _ep.__name__:
+                names |= set(dir(obj))
+        try:
+            ctx = _ep.TransactionContext.from_transaction({'description': 'x', 'amount': 1.0})
+            names |= set(vars(ctx)) | set(vars(_ep.TransactionEvaluator(ctx)))
+        except Exception:
+            pass
         for node in ast.walk(ast.parse(inspect.getsource(_ep))):
             if isinstance(node, ast.Constant) and isinstance(node.value, str) and node.value.isidentifier():
                 names.add(node.value)
@@ -375,7 +385,7 @@ def function_names():
     return sorted(n for n in names if n.isidentifier())
 
 
-FUNC_SHAPES = ['{f}()', '{f}(payments)', '{f}("a b", "c d")', '{f}(1, 2)', '{f}(description)', '{f}(orders)', '{f}(amount)', '{f}("os")', 'trim({f})', '{f}(payments, 1)',
+FUNC_SHAPES = ['{f}', '{f}()', '{f}(payments)', '{f}("a b", "c d")', '{f}(1, 2)', '{f}(description)', '{f}(orders)', '{f}(amount)', '{f}("os")', 'trim({f})', '{f}(payments, 1)',
                # strings that are programs of some mini-language (str.format fields, %-templates, regex replacement templates, strftime), in every argument position
                '{f}("{0.__class__} {0.upper}", description)', '{f}("{0[0].__class__.__mro__}", [r for r in orders])', '{f}(description, "{0.__class__.__init__.__globals__}")',
                '{f}("%(item)r %(date)r", orders[0])', '{f}("{.__class__}")', '{f}(description, "(.)", "\\g<0>{0.__class__}")', '{f}("{0.__class__}", "{0.__class__}", description)',
